@@ -63,12 +63,19 @@ def ann(container, target_expr, quoted_inner):
         return f"List[List[{t}]]"       # the reference sits two generic levels deep
     if container == "dictlist":
         return f"Dict[str, List[{t}]]"
+    if container == "array":
+        return f"Array[{t}]"                # the library's own generic: built before it reaches the declaration
+    if container == "obj":
+        return f"Object[str, {t}]"
+    if container == "lorlist":
+        return f"PosInt | List[{t}]"        # the library's own operator over a typing generic that holds the reference
     return t
 
 
 def default_for(container):
     return {"opt": " = None", "list": " = Field(default_factory=list)", "dict": " = Field(default_factory=dict)",
-            "union": " = 0", "req": "", "list2": " = Field(default_factory=list)", "dictlist": " = Field(default_factory=dict)"}[container]
+            "union": " = 0", "req": "", "list2": " = Field(default_factory=list)", "dictlist": " = Field(default_factory=dict)",
+            "array": " = Field(default_factory=list)", "obj": " = Field(default_factory=dict)", "lorlist": " = 1"}[container]
 
 
 def class_source(prog, ci, S, direct=False):
@@ -139,7 +146,7 @@ def class_source(prog, ci, S, direct=False):
 
 
 HEADER = ("from utype import Schema, DataClass, Field, Options, Rule\nimport utype\n"
-          "from typing import List, Dict, Optional, Union, Iterator, Generator, Literal, Tuple, Final, ClassVar\nfrom utype.utils.compat import Self\nimport sys as _sys\nMOD = _sys.modules[__name__]\n")
+          "from typing import List, Dict, Optional, Union, Iterator, Generator, Literal, Tuple, Final, ClassVar\nfrom utype.utils.compat import Self\nfrom utype.types import Array, Object, PositiveInt as PosInt\nimport sys as _sys\nMOD = _sys.modules[__name__]\n")
 
 
 def alias_source(S):
@@ -277,7 +284,8 @@ def model_class(prog, ci, data, depth=0):
         if key not in data:
             if cont == "req":
                 raise Reject()
-            dv = {"opt": None, "list": ["list", []], "dict": ["dict", []], "union": 0, "list2": ["list", []], "dictlist": ["dict", []]}[cont]
+            dv = {"opt": None, "list": ["list", []], "dict": ["dict", []], "union": 0, "list2": ["list", []], "dictlist": ["dict", []],
+                  "array": ["list", []], "obj": ["dict", []], "lorlist": 1}[cont]
             out.append([key, dv])
             continue
         x = data[key]
@@ -285,11 +293,11 @@ def model_class(prog, ci, data, depth=0):
             out.append([key, None if x is None else model_class(prog, r["to"], x, depth + 1)])
         elif cont == "req":
             out.append([key, model_class(prog, r["to"], x, depth + 1)])
-        elif cont == "list":
+        elif cont in ("list", "array", "lorlist"):
             if not isinstance(x, list):
                 raise Reject()
             out.append([key, ["list", [model_class(prog, r["to"], y, depth + 1) for y in x]]])
-        elif cont == "dict":
+        elif cont in ("dict", "obj"):
             if not isinstance(x, dict):
                 raise Reject()
             out.append([key, ["dict", [[k, model_class(prog, r["to"], y, depth + 1)] for k, y in x.items()]]])
@@ -397,9 +405,11 @@ def gen_input(rng, prog, ci, depth, bad):
             d[key] = None if rng.random() < 0.15 else sub()
         elif cont == "req":
             d[key] = sub()
-        elif cont == "list":
+        elif cont in ("list", "array"):
             d[key] = [sub() for _ in range(rng.choice([0, 1, 2]))]
-        elif cont == "dict":
+        elif cont == "lorlist":
+            d[key] = [sub() for _ in range(rng.choice([1, 1, 2]))]
+        elif cont in ("dict", "obj"):
             d[key] = {"k%d" % j: sub() for j in range(rng.choice([0, 1, 2]))}
         elif cont in ("list2", "dictlist"):
             # (two container levels per class level: keep the whole value within the depth the canonical dump shows)
@@ -515,7 +525,7 @@ def generate(rng, tier):
         refs = []
         for _fi in range(rng.choice([1, 1, 2, 2, 3]) if not (dag and ci == n - 1) else 0):
             to = rng.randrange(n) if not dag else rng.randrange(ci + 1, n)
-            cont = rng.choice(["opt", "opt", "list", "list", "dict", "union", "req", "list2", "dictlist"])
+            cont = rng.choice(["opt", "opt", "list", "list", "dict", "union", "req", "list2", "dictlist", "array", "obj", "lorlist"])
             if to == ci and cont == "req":
                 cont = "opt"
             refs.append({"to": to, "cont": cont, "spell": None})
@@ -553,7 +563,9 @@ def generate(rng, tier):
             if r["cont"] == "req" and pos[r["to"]] >= pos[ci]:
                 r["cont"] = "opt"
             choices = ["str", "str", "whole", "dotted"]
-            if r["to"] == ci:
+            if r["to"] == ci and r["cont"] not in ("lorlist", "array", "obj"):
+                # (PosInt | List[Self], Array[Self] are built by the library's operator / subscript in the class body,
+                # before there is a class Self could mean: refused at declaration with a message that says so)
                 choices.append("self")
             if pos[r["to"]] < pos[ci] and not future:
                 choices += ["direct", "direct"]
@@ -1123,7 +1135,7 @@ def _strip_key(plan, ci, key):
             elif isinstance(x, list):
                 for y in x:
                     walk(r["to"], y)
-            elif isinstance(x, dict) and r["cont"] == "dict":
+            elif isinstance(x, dict) and r["cont"] in ("dict", "obj"):
                 for y in x.values():
                     walk(r["to"], y)
     for e in plan["events"]:
